@@ -42,22 +42,27 @@ What is proved, for all such registries, every option set and plug:
 * the stages behind them, as statements of their own: `context_independence` (a), `grouping_found_same`
   (b), `parts_merge_each_submodule_once` (c).
 
-Sets WITH augment statements (this round):
+Sets WITH augment statements:
 
-* `include_eq_inline_fails` — **the full statement `IncludeEqInline` is FALSE** of the model and of the Go
-  code (finding D67, witness in /verif/corpus/C13/D67-witness.txt, replayed on both): two modules `ma`,
-  `mb` augment the implied case of a shorthand choice member of `t` in a chain (`/t:ch/t:x`, then
-  `/t:ch/t:x/ma:y`); neither is applicable before FixChoice, both are applied by the single leftover pass
-  `Augment(true)`, in the order swap-remove left the module array in.  Splitting an augment-free
-  submodule `a-sub` off `t` permutes that order ([ma, mb] becomes [mb, ma]): the unsplit set processes
-  without errors, the split set reports `augment-not-found`.  Kernel-checked on the model
-  (`Ex3.unsplit_clean`, `Ex3.split_errors`), all hypotheses of `IsSplitOf` discharged.
-* `IncludeEqInlineAugments` — the corrected statement: no deviation statements, and the augment loop of
-  the unsplit set leaves nothing pending (`NoLeftover`, decidable: the excluded inputs are exactly those
-  whose augments wait for the leftover pass, the case C07 leaves outside its claim).  NOT proved in
-  general; kernel-checked on `Ex4` (`include_eq_inline_augments_example`: two modules augment, in a
-  chain, a container that the split moves into a submodule; the loop of the split set visits the
-  modules in another order and needs a second pass).  Proved towards it, for all split pairs:
+* Finding D67 and its repair.  Before the repair the full statement `IncludeEqInline` was FALSE of the
+  model and of the Go code (witness in /verif/corpus/C13/D67-witness.txt, replayed on both): two modules
+  `ma`, `mb` augment the implied case of a shorthand choice member of `t` in a chain (`/t:ch/t:x`, then
+  `/t:ch/t:x/ma:y`); neither is applicable before FixChoice, and the stage after FixChoice was ONE sweep
+  `Augment(true)` in the order swap-remove had left the module array in.  Splitting an augment-free
+  submodule `a-sub` off `t` permutes that order ([ma, mb] becomes [mb, ma]): the unsplit set processed
+  without errors, the split set reported `augment-not-found` (theorem `include_eq_inline_fails`, now
+  removed).  The repair (`fix:` commit in pkg/yang/modules.go, mirrored by `Model.leftoverRounds`) makes
+  that stage a fixpoint: after the first FixChoice the augment loop is retried over the modules that still
+  hold pending augments, with FixChoice after every productive round, until a round applies nothing; only
+  then does the reporting sweep run.  `include_eq_inline_witness`: on the witness pair the split set is now
+  clean and the dumps are equal (kernel-checked on the model, `Ex3.unsplit_clean`, `Ex3.split_clean`,
+  `Ex3.split_dump`; `Ex3.leftover`: both augments do wait for that stage; all hypotheses of `IsSplitOf`
+  discharged).
+* `IncludeEqInlineAugments` — the statement for sets whose augment loop leaves nothing pending
+  (`NoLeftover`, decidable) and without deviation statements.  NOT proved in general; kernel-checked on
+  `Ex4` (`include_eq_inline_augments_example`: two modules augment, in a chain, a container that the split
+  moves into a submodule; the loop of the split set visits the modules in another order and needs a
+  second pass).  Proved towards it, for all split pairs:
   - `include_pending_rows` — at the start of the augment stage the submodules have nothing pending and
     every other row lists the augment statements of the same module (the owner's: the unsplit module's);
   - `include_augment_loop_order` + `include_augment_loop_clean_iff` — missing item (1) below, closed on
@@ -73,17 +78,21 @@ Sets WITH augment statements (this round):
   loops in the SAME module order on forests related by `ren σ` / `SameTop` (`find` through `child?_sameTop`,
   `merge`/`updateAt` under `ren`); (E) the canonical dump as a function of the flat view (children
   sorted, `NoDupNames`), to pass from `include_augment_loop_order`'s view equality to `dumpOf`.
+  For sets WITH augments left for the stage after FixChoice the same three pieces are needed for every
+  retry round (each round is the same loop, `Lemmas/Rounds.lean`), plus `fixChoice` under `ren σ` /
+  `SameTop`.
 
-Replay of the D67 witness (the texts are in the corpus file; both programs lived in /tmp):
-Go side — `ms := yang.NewModules(); ms.Parse(text, name)` for every file in the order given, `ms.Process()`:
-unsplit `[]`, split `[mb.yang:1:92: augment /t:ch/t:x/ma:y not found]`.  Model side —
-`lib.WireFiles(names, texts)` sent as `process 0 0 <wire>` to `.lake/build/bin/drv_res`: unsplit a dump
+Replay of the D67 witness (the texts are in the corpus file; both programs lived in /tmp).  Before the
+repair — Go: `ms := yang.NewModules(); ms.Parse(text, name)` for every file in the order given,
+`ms.Process()`: unsplit `[]`, split `[mb.yang:1:92: augment /t:ch/t:x/ma:y not found]`; model
+(`lib.WireFiles(names, texts)` sent as `process 0 0 <wire>` to `.lake/build/bin/drv_res`): unsplit a dump
 without `E` record (nodes `/t/ch/x/x`, `/t/ch/x/y` ns=urn:ma, `/t/ch/x/y/z` ns=urn:mb, `/t/keep/k`), split
-`E mb.yang:1:92:augment-not-found`.
+`E mb.yang:1:92:augment-not-found`.  After the repair both sides return no error and the same nodes for
+both sets (corr-c13c keeps the pair as a regression witness).
 
 `IncludeEqInline` is the full statement (any registry, canonical dumps as the runner compares
-them) — false as it stands, see above; the note at its definition lists what is missing for the
-corrected one.
+them) — no longer refuted, not proved for sets with augments; the note at its definition lists what is
+missing.
 -/
 namespace Goyang.Props.C13Include
 open Goyang.Model Goyang.Spec.Include Goyang.Spec.Uses Goyang.Lemmas.Tree
@@ -109,19 +118,23 @@ theorem include_conversion (s : Split) (R R' : Registry) (opts : Opts) (plug plu
 
 /-! ### `Modules.Process` -/
 
-/-- **The full statement** — FALSE as it stands (`include_eq_inline_fails`, finding D67): for every pair of
+/-- **The full statement**: for every pair of
 registries related by a split — any other modules, augments and deviations, nested includes among the
 parts — a clean `Process` of the unsplit set implies a clean `Process` of the split set and equal
 canonical dumps (children in name order at every level; kind, config, type, defaults, constraints,
-namespace, read-only, instantiating module) of the split module.  It fails when augments wait for the
-leftover pass after FixChoice (targets in implied cases, chained across modules): that pass is one sweep
-in the order swap-remove left the module array in, and the additional submodule trees permute it.
+namespace, read-only, instantiating module) of the split module.  Before the repair of finding D67 it
+FAILED when augments waited for the stage after FixChoice (targets in implied cases, chained across
+modules): that stage was one sweep in the order swap-remove had left the module array in, and the
+additional submodule trees permute it.  The stage is now a fixpoint (`Model.leftoverRounds`) and the
+witness pair satisfies the statement (`include_eq_inline_witness`); no counterexample is known.
 
 Proved below: `include_eq_inline_noaug` (this very statement for sets without augment and deviation
 statements), `include_eq_inline_partial` + `include_paths` (the same sets; `R` without submodules),
 `include_conversion` (conversion stage, augments and deviations allowed), and for sets with augments
-`include_pending_rows`, `include_augment_loop_order`, `include_augment_loop_clean_iff`, `no_leftover_result`.
-The corrected statement is `IncludeEqInlineAugments`.  What is missing for it: (1) the augment loop
+`include_pending_rows`, `include_augment_loop_order`, `include_augment_loop_clean_iff`, `no_leftover_result`,
+`include_eq_inline_witness`.
+The statement with the hypotheses under which those results apply is `IncludeEqInlineAugments`.  What is
+missing for it: (1) the augment loop
 visits the trees in an order that the additional (augment-free) submodule trees change (swap-remove
 over the module array), so children grafted by different modules into one node can arrive in another
 order — CLOSED on the flat view by `include_augment_loop_order` (C07's order independence); what remains
@@ -132,7 +145,8 @@ function of the flat view; (3) nested includes among the parts ARE covered
 (`parts_merge_each_submodule_once`); (4) other modules of `R` with submodules of their own (their include
 steps run in lockstep in both registries; not done); deviations (after the augment stage: `find` on
 related forests, as (S)).  The metamorphic runner harness/cmd/corr-c13c checks the full statement on both
-sides and carries the D67 witness as a known finding. -/
+sides, on sets with and without augments left for the stage after FixChoice, and keeps the D67 witness
+pair as a regression witness. -/
 def IncludeEqInline (s : Split) (R R' : Registry) (opts : Opts) (plug plug' : Plug) : Prop :=
   (processAll R opts plug).errors = [] →
     (processAll R' opts plug').errors = [] ∧
@@ -175,11 +189,13 @@ theorem include_eq_inline_noaug (s : Split) (R R' : Registry) (opts : Opts) (plu
 
 /-! ### sets with augment statements -/
 
-/-- **The corrected statement for sets with augments** (not proved in general; kernel-checked on `Ex4`,
-refuted without the second hypothesis by `include_eq_inline_fails`): no deviation statement in the set,
-and the augment loop of the unsplit set leaves no augment pending (`NoLeftover`: decidable by running
-the loop; it excludes exactly the augments that wait for the leftover pass after FixChoice — targets in
-the implied case of a shorthand choice member — which C07 leaves outside its claim). -/
+/-- **The statement for sets with augments that the results below work towards** (not proved in general;
+kernel-checked on `Ex4`): no deviation statement in the set, and the augment loop of the unsplit set
+leaves no augment pending (`NoLeftover`: decidable by running the loop; it excludes the augments that
+wait for the stage after FixChoice — targets in the implied case of a shorthand choice member).  Since
+the repair of D67 the second hypothesis is no longer needed for the statement to hold on the known
+inputs (`include_eq_inline_witness`: the former counterexample satisfies `IncludeEqInline` with
+`NoLeftover` false); it delimits what `no_leftover_result` covers. -/
 def IncludeEqInlineAugments (s : Split) (R R' : Registry) (opts : Opts) (plug plug' : Plug) : Prop :=
   (∀ x ∈ R.mods, x.stmt.all "deviation" = []) → Lemmas.IncludeAugOrder.NoLeftover R opts plug →
     IncludeEqInline s R R' opts plug plug'
@@ -224,7 +240,7 @@ theorem include_augment_loop_clean_iff (s : Split) (R R' : Registry) (opts : Opt
   Lemmas.IncludeAugOrder.split_loop_clean_iff opts plug plug' h hL hpos hplain h0
 
 /-- **no_leftover_result.**  Any registry without deviation statements whose loop leaves nothing pending,
-first two stages clean: the leftover pass and the second FixChoice do nothing — `processAll` returns the
+first two stages clean: the retry rounds, the reporting sweep and the last FixChoice do nothing — `processAll` returns the
 loop's forest with `fixChoice` applied to every tree, and the errors recorded in it. -/
 theorem no_leftover_result (reg : Registry) (opts : Opts) (plug : Plug)
     (hn : Lemmas.IncludeAugOrder.NoLeftover reg opts plug) (hdev : ∀ x ∈ reg.mods, x.stmt.all "deviation" = [])
@@ -703,7 +719,7 @@ theorem nested_result :
 end Ex2
 
 
-/-! ### the full statement fails: finding D67 (witness replayed on the Go code and on the model)
+/-! ### the D67 witness (replayed on the Go code and on the model): refuted the full statement before the repair
 
 ```
 module ma { … import t …; augment "/t:ch/t:x" { container y { } } }
@@ -713,8 +729,10 @@ module t  { … choice ch { leaf x { type string; } } container keep { leaf k { 
            submodule a-sub { belongs-to t { prefix t; } container keep { leaf k { … } } }
 ```
 `/t:ch/t:x` is the leaf `x` until FixChoice wraps it into the implied case `x`: neither augment is
-applicable in the loop, both are applied by the leftover pass — unsplit in the order [ma, mb] (clean),
-split in the order [mb, ma] (swap-remove of `a-sub`, then of `t`): `mb`'s target does not exist yet. -/
+applicable in the loop, both wait for the stage after FixChoice, which the unsplit set enters with the
+modules in the order [ma, mb] and the split set in the order [mb, ma] (swap-remove of `a-sub`, then of
+`t`).  With the single sweep `mb`'s target did not exist yet in the split run (`augment-not-found`); the
+retry rounds apply `ma` in the first pass, `mb` in the second, in both runs. -/
 namespace Ex3
 open Ex (st plug)
 def ty (f : String) (l c : Nat) : Stmt := st f "type" "string" l c []
@@ -853,21 +871,36 @@ theorem unsplit_clean : (processAll R {} plug).errors = [] := by
   rw [processAll_errors_K R {} plug (by decide +kernel) (by decide +kernel)]; decide +kernel
 
 open Goyang.Lemmas.IncludeAugK in
-theorem split_errors : (processAll R' {} plug).errors.map (·.cls) = ["augment-not-found"] := by
+theorem split_clean : (processAll R' {} plug).errors = [] := by
   rw [processAll_errors_K R' {} plug (by decide +kernel) (by decide +kernel)]; decide +kernel
+
+open Goyang.Lemmas.IncludeAugK in
+theorem split_dump : dumpOf (processAll R' {} plug) o = dumpOf (processAll R {} plug) t := by
+  unfold dumpOf
+  rw [processAll_forest_K R' {} plug (by decide +kernel) (by decide +kernel),
+    processAll_forest_K R {} plug (by decide +kernel) (by decide +kernel),
+    Lemmas.IncludeDump.processAll_reg, Lemmas.IncludeDump.processAll_reg]
+  decide +kernel
+
+open Goyang.Lemmas.IncludeAugK Goyang.Lemmas.IncludeAugOrder in
+/-- Both augments of the witness wait for the stage after FixChoice: the loop of the unsplit set leaves
+them pending (`NoLeftover` does not hold; the pair is outside `IncludeEqInlineAugments`). -/
+theorem leftover : ¬ NoLeftover R {} plug := by
+  unfold NoLeftover; rw [afterLoop_eqK]; decide +kernel
 end Ex3
 
-theorem include_eq_inline_fails :
-    ∃ (s : Split) (R R' : Registry) (plug : Plug), IsSplitOf s R R' plug plug ∧
-      (∀ x ∈ R.mods, x.stmt.all "deviation" = []) ∧ ¬ IncludeEqInline s R R' {} plug plug := by
-  refine ⟨Ex3.sp, Ex3.R, Ex3.R', Ex.plug, Ex3.isSplit, ?_, ?_⟩
-  · intro x hx
-    rcases Ex3.mem_R hx with rfl | rfl | rfl <;> rfl
-  · intro h
-    have h1 := (h Ex3.unsplit_clean).1
-    have h2 := Ex3.split_errors
-    rw [h1] at h2
-    cases h2
+/-- **include_eq_inline_witness.**  The D67 witness pair after the repair: the set with the augment-free
+submodule split off processes without errors like the unsplit set, and the dumps of `t` are equal —
+`IncludeEqInline` holds of it, although both augments wait for the stage after FixChoice
+(`Ex3.leftover`) and the two runs enter that stage with the modules in opposite orders.  Before the
+repair (one ordered sweep `Augment(true)` instead of the retry rounds) the split set returned
+`augment-not-found` here and this pair refuted the statement (`include_eq_inline_fails`, removed). -/
+theorem include_eq_inline_witness :
+    IsSplitOf Ex3.sp Ex3.R Ex3.R' Ex.plug Ex.plug ∧ (∀ x ∈ Ex3.R.mods, x.stmt.all "deviation" = []) ∧
+    ¬ Lemmas.IncludeAugOrder.NoLeftover Ex3.R {} Ex.plug ∧ IncludeEqInline Ex3.sp Ex3.R Ex3.R' {} Ex.plug Ex.plug := by
+  refine ⟨Ex3.isSplit, ?_, Ex3.leftover, fun _ => ⟨Ex3.split_clean, Ex3.split_dump⟩⟩
+  intro x hx
+  rcases Ex3.mem_R hx with rfl | rfl | rfl <;> rfl
 
 /-! ### non-vacuity of `IncludeEqInlineAugments`: a chain of augments into a node the split moves
 
